@@ -12,6 +12,7 @@ EXPLANATION = (
     "(R-C04-varint-siblings) the hand-copied framing helpers (length, len_len, write_remaining_length, check, parse_fixed_header, read_*/write_* primitives) that are identical on the pinned tree stay signature-equal (thresholds, masks, shift limit). "
     "(R-C04-flag-bits) the four copies extract/set the same bits of the CONNECT flags, PUBLISH header flags, SUBSCRIBE options and CONNACK flags (masks normalised over shift spelling), and in the CONNECT family every field the reader extracts is one the writer sets and vice versa; "
     "(R-C04-prop-accounting) in every MQTT 5 properties reader each variable-length value read contributes its own len() plus a 2-byte prefix to the consumed-bytes counter exactly once; "
+    "(R-C04-len-strings) in every len() of the four codecs (and the per-item closures they fold over) each string len() is added together with a 2-byte length prefix; "
     "NOT decided (the bulk of the statement): decode(encode(p)) == p, size() == bytes written, exact consumption for all packet values.")
 ASSUMPTIONS = ["rustc MIR construction and constant evaluation are correct", "rules/mqtt5_properties.json transcribes table 2-4 of the OASIS MQTT 5.0 specification"]
 TECHNIQUE = "static analysis: handler-table extraction from MIR switch arms, constant provenance, writer/reader wire-type sequences, sibling signature comparison"
@@ -121,6 +122,8 @@ def run(ctx):
     ctx.guarded("R-C04-prop-table", cross_crate, ctx, tables)
     ctx.guarded("R-C04-varint-siblings", varint_siblings, ctx)
     ctx.guarded("R-C04-flag-bits", flag_bits, ctx)
+    for name, (crate, pre) in FLAG_COPY_PREFIX.items():
+        ctx.guarded("R-C04-len-strings", len_strings, ctx, ctx.progs[crate], name, pre)
     for name in ("rumqttd-v5", "rumqttc-v5"):
         crate, pre, entry, ptype = COPIES[name]
         ctx.guarded("R-C04-prop-accounting", prop_accounting, ctx, ctx.progs[crate], name, pre)
@@ -715,3 +718,89 @@ def prop_len_accounting(ctx, prog, name, pre):
         else:
             ctx.ok(rule, body.id, "%s %s: len() adds len_len(properties_len) + properties_len" % (name, body.id[len(pre):]), site=body.fn_loc())
     ctx.floor(rule, "packet len() functions that include a properties block in %s" % name, users, 8)
+
+
+# ------------------------------------------------------------------------------------------
+# R-C04-len-strings: every string counted by a len() has its 2-byte prefix counted with it
+
+def additive_roots(body):
+    """maximal additive expressions of a body: [(stmt, leaves)] for Add statements whose value is not itself an
+    operand of another Add (leaves = flattened provenance of both operands)"""
+    adds = []
+    for bi, blk in enumerate(body.blocks):
+        if blk.get("cleanup"):
+            continue
+        for st in blk["s"]:
+            if "lhs" in st and st["rv"]["k"] == "bin" and st["rv"]["op"] in ("Add", "AddWithOverflow") and not st["lhs"].get("p"):
+                adds.append((bi, st))
+    res_locals = {st["lhs"]["l"]: st for _, st in adds}
+
+    def feeds(l, seen=None):
+        """the Add statement (if any) whose result flows, through plain copies / .0 projections, into local l"""
+        seen = seen or set()
+        if l in seen:
+            return None
+        seen.add(l)
+        if l in res_locals:
+            return res_locals[l]
+        d = single_def(body, l)
+        if d and d[2] == "assign" and d[3]["rv"]["k"] == "use":
+            pl2 = op_place(d[3]["rv"]["a"])
+            if pl2 is not None:
+                return feeds(pl2["l"], seen)
+        return None
+    used = set()
+    for _, st in adds:
+        for side in ("a", "b"):
+            pl_ = op_place(st["rv"][side])
+            l = pl_["l"] if pl_ is not None else None      # `move (_t.0)` of a checked add counts as well
+            if l is not None:
+                src = feeds(l)
+                if src is not None and src is not st:
+                    used.add(id(src))
+    out = []
+    for bi, st in adds:
+        if id(st) in used:
+            continue
+        leaves = flatten_src(provenance(body, st["rv"]["a"])) + flatten_src(provenance(body, st["rv"]["b"]))
+        out.append((st, leaves))
+    return out
+
+
+def len_strings(ctx, prog, name, pre):
+    rule = "R-C04-len-strings"
+    nfn = 0
+    for b in sorted(prog.A.values(), key=lambda x: x.id):
+        if not b.id.startswith(pre) or not re.search(r"::len(::\{closure#\d+\})?$", b.id):
+            continue
+        roots = additive_roots(b)
+        if b.kind == "Closure":
+            # a per-item closure may return a bare `t.len()` (no addition at all): judge its return value too
+            for blk in b.blocks:
+                for st in blk["s"]:
+                    if "lhs" in st and st["lhs"]["l"] == 0 and not st["lhs"].get("p") and st["rv"]["k"] == "use":
+                        roots.append((st, flatten_src(provenance(b, st["rv"]["a"]))))
+            for bb, t in b.calls():
+                if not b.is_cleanup(bb) and t["dest"]["l"] == 0 and not t["dest"].get("p"):
+                    roots.append(({"sp": t.get("sp")}, [Src("call", path=callee_path(t), term=t, bb=bb, fields=[])]))
+        bad = []
+        seen = False
+        for st, leaves in roots:
+            strs = [x for x in leaves if x.kind == "call" and re.search(r"(std::string::String|str)::len$|<impl str>::len$", x.path)]
+            if not strs:
+                continue
+            seen = True
+            twos = sum(1 for x in leaves if x.kind == "const" and x.v == 2) + 2 * sum(1 for x in leaves if x.kind == "const" and x.v == 4)
+            if twos < len(strs):
+                bad.append((st, len(strs), twos))
+        if not seen:
+            continue
+        nfn += 1
+        if bad:
+            st, ns, n2 = bad[0]
+            ctx.violation(rule, b.id, "string counted without its length prefix",
+                          "%s %s: a sum adds the len() of %d string(s) but only %d two-byte prefix(es): the reported size is smaller than the bytes written as soon as that string (e.g. a second filter of a list) is present"
+                          % (name, b.id[len(pre):], ns, n2), site=b.loc(st.get("sp")))
+        else:
+            ctx.ok(rule, b.id, "%s %s: every string len() is added together with a 2-byte prefix" % (name, b.id[len(pre):]), site=b.fn_loc())
+    ctx.floor(rule, "len() bodies that count strings in %s" % name, nfn, 3)
